@@ -249,7 +249,7 @@ def r5_heartbeat(ctx):
     give = []
     werr = []
     for c in conds.all():
-        if c.kind == "bool" and isinstance(c.term, tuple) and c.term[0] == "call" and c.term[1].endswith(("PartialOrd>::gt", "PartialOrd::gt")):
+        if c.kind == "bool" and isinstance(c.term, tuple) and c.term[0] == "call" and c.term[1].endswith(("PartialOrd>::lt", "PartialOrd::lt")):
             if any("timeout" in v for v in _vars(c.term)):
                 give = c.edges_for(True)
         if c.kind == "variant" and is_call_term(c.term, S + "write_control_frame", S + "write_frame") and "Err" in sum(c.by_succ.values(), []):
